@@ -48,6 +48,16 @@ Theorem C10_crc32_detects_single_byte : forall pre x y post,
 Proof. exact crc32_single_byte. Qed.
 Print Assumptions C10_crc32_detects_single_byte.
 
+(* ... and every change confined to four consecutive bytes (a burst of up to 32 bits on byte boundaries:
+   a damaged length or checksum field, a torn 4-byte write) in a payload of any length *)
+Theorem C10_crc32_detects_4byte_burst : forall pre post x1 x2 x3 x4 y1 y2 y3 y4,
+  Forall (fun b => b < 256) pre -> Forall (fun b => b < 256) post ->
+  Forall (fun b => b < 256) [x1; x2; x3; x4] -> Forall (fun b => b < 256) [y1; y2; y3; y4] ->
+  [x1; x2; x3; x4] <> [y1; y2; y3; y4] ->
+  crc32 (pre ++ [x1; x2; x3; x4] ++ post) <> crc32 (pre ++ [y1; y2; y3; y4] ++ post).
+Proof. exact crc32_burst4. Qed.
+Print Assumptions C10_crc32_detects_4byte_burst.
+
 (* the bit-serial definition is CRC-32/IEEE: standard check value *)
 Theorem C10_crc32_check_value : crc32 [49;50;51;52;53;54;55;56;57] = 3421780262.
 Proof. exact crc_check. Qed.
